@@ -1,6 +1,7 @@
 """C04 — substitution pins the given value into the schema."""
 import math
 
+from ..common import safe_repr
 from .. import gen_value, runner, scripted_random as SR, substcorr
 from ..common import d42  # noqa: F401
 from niltype import Nil
@@ -55,7 +56,7 @@ def untouched_ok(s, r, v):
             if k not in kr:
                 return False
             if k not in v:
-                if kr[k][1] != opt or not (kr[k][0] == sub) or repr(kr[k][0]) != repr(sub):
+                if kr[k][1] != opt or not (kr[k][0] == sub) or safe_repr(kr[k][0]) != safe_repr(sub):
                     return False
             elif v[k] is not Ellipsis and not untouched_ok(sub, kr[k][0], v[k]):
                 return False
@@ -65,13 +66,13 @@ def untouched_ok(s, r, v):
 def oracle(ctx, cases):
     for c in cases:
         plain = not gen_value.has_placeholder(c.value)     # C04: "a plain value (no ... placeholders)"
-        ctx.case((repr(c.schema), repr(c.value)), c.kind == "ok" and plain and c.tag != "witness")
+        ctx.case((safe_repr(c.schema), safe_repr(c.value)), c.kind == "ok" and plain and c.tag != "witness")
         ctx.count("tag:" + c.tag)
         if c.kind != "ok" or not plain or gen_value.has_nan(c.value):
             ctx.count("not_applicable")
             continue
         r, v, s = c.result, c.value, c.schema
-        info = dict(schema=repr(s), value=repr(v), result=repr(r), tag=c.tag, py_schema=s, py_value=v)
+        info = dict(schema=safe_repr(s), value=safe_repr(v), result=safe_repr(r), tag=c.tag, py_schema=s, py_value=v)
         try:
             conf = not validate(s, v).has_errors()
         except Exception:
@@ -82,18 +83,18 @@ def oracle(ctx, cases):
             except Exception as e:  # noqa: BLE001
                 errs = [e]
             if errs:
-                ctx.violation("S % v rejects v although v conforms to S", errors=repr(errs[:3]), **info)
+                ctx.violation("S % v rejects v although v conforms to S", errors=safe_repr(errs[:3]), **info)
         for pol in ("lo", "hi", "rnd"):
             (k, g), _ = SR.generate(r, SR.make_policy(pol, ctx.rnd))
             if k == "ok" and not carries(v, g):
-                ctx.violation("a value generated from S % v does not carry the substituted data", generated=repr(g),
+                ctx.violation("a value generated from S % v does not carry the substituted data", generated=safe_repr(g),
                               policy=pol, **info)
                 break
         ps = gen_value.perturb(v, ctx.rnd, zoo_n=1)
-        for w in ctx.rnd.sample(ps, min(len(ps), ctx.n(10, 30))):
+        for w in gen_value.aliased_variants(v) + ctx.rnd.sample(ps, min(len(ps), ctx.n(10, 30))):
             try:
                 if not validate(r, w).has_errors() and not carries(v, w):
-                    ctx.violation("S % v accepts a value that does not carry the substituted data", accepted=repr(w), **info)
+                    ctx.violation("S % v accepts a value that does not carry the substituted data", accepted=safe_repr(w), **info)
                     break
             except Exception:
                 pass
@@ -107,7 +108,7 @@ def run(ctx):
     if not ok:
         ctx.breakage("translation", "generator short-circuit extraction failed: " + msg)
     runner.prove(ctx, MODULE, THEOREMS, FILES)
-    cases = substcorr.batch(ctx, ctx.n(90, 700), customs=False) + substcorr.open_dict_any_cases(ctx, ctx.n(150, 1500)) + substcorr.untyped_pair_cases(ctx) + substcorr.untyped_edge_cases(ctx) + substcorr.untyped_zoo_cases(ctx) + substcorr.relaxed_marker_position_cases(ctx) + substcorr.list_window_cases(ctx) + substcorr.float_precision_cases(ctx) + substcorr.many_errors_cases(ctx) + substcorr.list_partial_dict_cases(ctx)
+    cases = substcorr.batch(ctx, ctx.n(90, 700), customs=False) + substcorr.open_dict_any_cases(ctx, ctx.n(150, 1500)) + substcorr.untyped_pair_cases(ctx) + substcorr.untyped_edge_cases(ctx) + substcorr.untyped_zoo_cases(ctx) + substcorr.sibling_container_cases(ctx) + substcorr.relaxed_marker_position_cases(ctx) + substcorr.list_window_cases(ctx) + substcorr.float_precision_cases(ctx) + substcorr.many_errors_cases(ctx) + substcorr.list_partial_dict_cases(ctx)
     from d42 import schema
     corpus = [(schema.list([..., schema.dict({"a": schema.int, "b": schema.int}), ...]), [{"a": 1}, {"a": 1, "b": 2}]),
               (schema.list([..., schema.dict({"a": schema.int}), ...]), [{"a": 1}, {"a": 2}]),
@@ -122,10 +123,10 @@ def run(ctx):
     dis = substcorr.compare(cases, ctx)
     for c, detail in dis[:10]:
         ctx.breakage("correspondence", "substitution outcome differs between model and code",
-                     schema=repr(c.schema), value=repr(c.value), detail=detail, request=c.req)
+                     schema=safe_repr(c.schema), value=safe_repr(c.value), detail=detail, request=c.req)
     ctx.cov["corr_disagreements"] = len(dis)
     for c in [c for c in cases if c.kind == "ok"][:200:40]:
-        ctx.sample({"schema": repr(c.schema), "value": repr(c.value), "result": repr(c.result)[:300]})
+        ctx.sample({"schema": safe_repr(c.schema), "value": safe_repr(c.value), "result": safe_repr(c.result)[:300]})
 
 
 def replay(path):
